@@ -49,7 +49,7 @@ vars == <<pvars, inp, lastEol>>
 
 Init == PInit /\ inp = <<>> /\ lastEol = "lf"
 
-CaseJson == ToJson([inp |-> inp', eol |-> lastEol', calls |-> FinalCallsOf(ps')])
+CaseJson == ToJson([inp |-> inp', eol |-> lastEol', calls |-> FinalCallsOf(ps'), pp |-> PP(FinalCallsOf(ps'))])
 
 Feed(k, e) ==
   /\ Len(inp) < MaxLen
